@@ -6,6 +6,8 @@ import (
 	"fmt"
 	"math/rand"
 	"os"
+	"os/exec"
+	"path/filepath"
 	"sort"
 	"testing"
 	"time"
@@ -72,6 +74,9 @@ func TestC10Stress(t *testing.T) {
 	defer func() { rec.Flush(completed) }()
 
 	open := vstat.OpenClasses("C10")
+	if f, ok := open[classD6Alias]; ok {
+		open[classD6] = f // the same class under the generic frame-pair name
+	}
 	_, d6open := open[classD6]
 	rl := newRaceLog()
 	switch {
@@ -288,9 +293,56 @@ func replayC10(rf *vstat.ReplayFile) string {
 		case v.inconclusive != "":
 			fmt.Println("NOTE: inconclusive:", v.inconclusive)
 		case h.RaceReport != "":
-			fmt.Println("NOTE: this file records a race-detector report; the recorded history itself satisfies the history oracles, the report is not re-creatable from it (run the stress part)")
+			fmt.Println("NOTE: this file records a race-detector report; the recorded history itself satisfies the history oracles and the report cannot be re-created from it")
+			if rf.Class == classD6 || rf.Class == classD6Alias {
+				// the class has a minimal deterministic probe: run it in a child process whose race log can be read
+				switch reported, err := probeD6InChild(); {
+				case err != nil:
+					fmt.Println("NOTE: minimal probe not run:", err)
+				case reported:
+					return classD6 + ": the minimal probe Leaf.Update(2) || Delete([a]) still makes the race detector report ctree.(*Leaf).Update / ctree.(*Tree).internalDelete"
+				default:
+					fmt.Println("NOTE: the minimal probe Leaf.Update(2) || Delete([a]) no longer reports the race")
+				}
+			}
 		}
 		return ""
 	}
 	return "unrecognised C10 scenario"
+}
+
+// TestC10ProbeChild is the body of the child process started by probeD6InChild.
+func TestC10ProbeChild(t *testing.T) {
+	if os.Getenv("C10_PROBE_CHILD") != "1" {
+		t.Skip()
+	}
+	probeD6()
+}
+
+// probeD6InChild runs the minimal racing pair in a copy of this test binary
+// with GORACE pointing at a scratch log and reports whether the class shows up.
+func probeD6InChild() (bool, error) {
+	if !raceEnabled {
+		return false, fmt.Errorf("this binary was built without -race (add \"race\": true to the replay file)")
+	}
+	dir, err := os.MkdirTemp("", "c10probe")
+	if err != nil {
+		return false, err
+	}
+	defer os.RemoveAll(dir)
+	cmd := exec.Command(os.Args[0], "-test.run", "^TestC10ProbeChild$", "-test.count", "1")
+	cmd.Env = append(os.Environ(), "C10_PROBE_CHILD=1", "GORACE=log_path="+filepath.Join(dir, "race")+" halt_on_error=0")
+	cmd.Dir = dir
+	cmd.Run() // exits non-zero when a race is reported
+	files, _ := filepath.Glob(filepath.Join(dir, "race.*"))
+	for _, f := range files {
+		b, _ := os.ReadFile(f)
+		reps, _ := parseRaceReports(string(b))
+		for _, r := range reps {
+			if r.class == classD6 {
+				return true, nil
+			}
+		}
+	}
+	return false, nil
 }
